@@ -259,6 +259,12 @@ def simplify_equality(
     if isinstance(simplified_equation, BooleanTrue):
         return None
 
+    if not isinstance(simplified_equation, Eq):
+        # the equation has no solution (sympy reduced it to False), printing its two expanded sides.
+        simplified_equation = Eq(
+            expand(transformed_left_expr), expand(transformed_right_expr), evaluate=False
+        )
+
     pddl_left_side = convert_expr_to_pddl(
         simplified_equation.lhs, symbolic_vars, decimal_digits=decimal_digits
     )
